@@ -849,3 +849,82 @@ Proof.
     destruct (with_ticks_last phase period segs k0 Hne) as (sg & Hin).
     exists (sg, tick phase period (k0 + length segs)). split; auto. simpl. unfold tau in Hge. lia.
 Qed.
+
+Lemma swept_app : forall l1 l2, swept (l1 ++ l2) = swept l1 ++ swept l2.
+Proof.
+  induction l1 as [|[seg tau] l1 IH]; intros l2; simpl; auto.
+  rewrite IH, <- app_assoc. reflexivity.
+Qed.
+
+Lemma with_ticks_app : forall phase period l1 l2 k,
+  with_ticks phase period k (l1 ++ l2) = with_ticks phase period k l1 ++ with_ticks phase period (k + length l1) l2.
+Proof.
+  intros phase period l1. induction l1 as [|seg l1 IH]; intros l2 k; simpl.
+  - rewrite Nat.add_0_r. reflexivity.
+  - rewrite IH. replace (k + S (length l1)) with (S k + length l1) by lia. reflexivity.
+Qed.
+
+Lemma ticked_app : forall phase period l1 l2,
+  ticked phase period 0 (l1 ++ l2) = ticked phase period 0 l1 ++ ticked phase period (length l1) l2.
+Proof. intros. unfold ticked. rewrite with_ticks_app, swept_app. reflexivity. Qed.
+
+(* The sweeper and an idle client, in one statement: there is an n >= 1 -- the number of the first
+   sweep at or after last_seen + timeout, which comes before last_seen + timeout + period -- such
+   that after fewer than n further sweeps the client is still there with the same queue and the
+   same contents, and after n or more it is gone and its queue is closed. *)
+Theorem ticker_idle_client : forall cap timeout phase period pre a r,
+  (0 < period)%Z ->
+  let k0 := length pre in
+  let s := fst (qrun cap timeout (ticked phase period 0 pre) qc_empty) in
+  rec_of (clients s) a = Some r ->
+  (tick phase period k0 < c_seen r + timeout)%Z ->
+  exists n, 1 <= n /\
+    (c_seen r + timeout <= tick phase period (k0 + n) < c_seen r + timeout + period)%Z /\
+    forall segs, Forall (fun seg => forallb (idle_op a (c_qid r)) seg = true) segs ->
+      let s' := fst (qrun cap timeout (ticked phase period 0 (pre ++ segs)) qc_empty) in
+      (length segs < n -> rec_of (clients s') a = Some r /\ out_q (clients s') a = c_q r) /\
+      (n <= length segs -> rec_of (clients s') a = None /\ In (c_qid r) (map fst (dead (clients s')))).
+Proof.
+  intros cap timeout phase period pre a r Hp k0 s Hrec Hlast.
+  destruct (first_tick phase period k0 (c_seen r + timeout) Hp Hlast) as (n & Hn & Hwin & Hbefore).
+  exists n. split; auto. split; auto.
+  intros segs Hidle s'.
+  assert (Hinv : cm_inv (clients s)) by (apply qrun_inv; exact cm_inv_empty).
+  assert (Es' : s' = fst (qrun cap timeout (ticked phase period k0 segs) s)).
+  { unfold s'. rewrite ticked_app, qrun_app. reflexivity. }
+  destruct segs as [|seg0 rest] eqn:Esegs.
+  - split; [|intro Hl; simpl in Hl; lia]. intros _. rewrite Es'. simpl. split; auto. unfold out_q. rewrite Hrec. auto.
+  - rewrite <- Esegs in *.
+    assert (Hne : segs <> []) by (rewrite Esegs; discriminate).
+    destruct (ticker_window cap timeout phase period k0 segs s a r Hp Hinv Hrec Hidle Hne) as [K G].
+    rewrite <- Es' in K, G. split.
+    + intro Hl. assert (Hr : rec_of (clients s') a = Some r) by (apply K; apply Hbefore; auto).
+      split; auto. unfold out_q. rewrite Hr. auto.
+    + intro Hl. apply G.
+      pose proof (tick_mono phase period (k0 + n) (k0 + length segs) Hp ltac:(lia)). lia.
+Qed.
+
+(* ---------------------------------------------------------------- from the empty connection *)
+
+Lemma reach_inv : forall cap timeout ops,
+  cm_inv (clients (fst (qrun cap timeout ops qc_empty))) /\ dead_ok (clients (fst (qrun cap timeout ops qc_empty))).
+Proof.
+  intros. split; [apply qrun_inv; exact cm_inv_empty | apply qrun_dead_ok; [exact cm_inv_empty | exact dead_ok_empty]].
+Qed.
+
+Theorem epoch_fifo_from_empty : forall cap timeout ops a,
+  let '(s', outs) := qrun cap timeout ops qc_empty in
+  match ep_run timeout a None ops outs with
+  | None => rec_of (clients s') a = None /\ out_q (clients s') a = []
+  | Some e => exists r, rec_of (clients s') a = Some r /\ c_seen r = e_seen e /\ c_qid r = e_qid e /\
+                        e_w e = e_r e ++ out_q (clients s') a
+  end.
+Proof.
+  intros cap timeout ops a.
+  assert (H0 : ep_inv a None (clients qc_empty)) by reflexivity.
+  destruct (epoch_fifo cap timeout ops a qc_empty None cm_inv_empty H0) as [_ H].
+  destruct (qrun cap timeout ops qc_empty) as [s' outs]. simpl in H.
+  destruct (ep_run timeout a None ops outs) as [e|]; simpl in H.
+  - destruct H as (r & H1 & H2 & H3 & H4). exists r. unfold out_q. rewrite H1. auto.
+  - unfold out_q. rewrite H. auto.
+Qed.
